@@ -216,4 +216,55 @@ def rmwOutcome (m : List Bool) : List Nat × List Nat :=
   let s := runMerge2 (rmwSteps 0 1) (rmwSteps 1 2) m {}
   (s.cell, s.acked)
 
+/-! ### (5) check-then-act on the fork head (`MineBlock` against `InsertBlock`)
+
+  `DPoVP.MineBlock` (/repo/chain/consensus/dpovp.go): `parentHeader := dp.CurrentBlock().Header` (READ the
+  head), then check the node's slot against it, build a child of it, store it and update the fork head (ACT).
+  `DPoVP.InsertBlock(B)` moves the head from P to B under the chain lock.  Blocks: `0` = P, `1` = B, `2` = M (the
+  node's own block); the node is in turn on P only.  The engine's section must start BEFORE the read. -/
+
+structure CS where
+  head      : Nat := 0
+  /-- (ghost) every mining decision: (the head the slot was checked against, the head at the moment the block
+      was built and stored), most recent first -/
+  decisions : List (Nat × Nat) := []
+  /-- parents of the blocks this node mined, most recent first -/
+  mined     : List Nat := []
+  /-- failed `MineBlock` calls (not in turn) -/
+  mineErr   : Nat := 0
+  loc       : Nat → Nat := fun _ => 0
+
+def ctaInTurn (h : Nat) : Bool := h == 0
+
+/-- `parentHeader := dp.CurrentBlock().Header` -/
+def ctaRead (i : Nat) (s : CS) : CS := { s with loc := fun j => if j = i then s.head else s.loc j }
+
+/-- the rest of `MineBlock`: slot check against the header read, build + store a child of it, `UpdateFork`
+    (the new block becomes the head only if it extends the current head; a sibling at the same height does not) -/
+def ctaAct (i : Nat) (s : CS) : CS :=
+  let p := s.loc i
+  if ctaInTurn p then
+    { s with decisions := (p, s.head) :: s.decisions, mined := p :: s.mined,
+             head := if s.head = p then 2 else s.head }
+  else { s with mineErr := s.mineErr + 1 }
+
+/-- `InsertBlock(B)`, B a child of P: B becomes the head if P still is -/
+def ctaInsert (s : CS) : CS := { s with head := if s.head = 0 then 1 else s.head }
+
+/-- `MineBlock` with the read INSIDE the chain-lock section (the code) -/
+def ctaMineSteps (i : Nat) : List (CS → CS) := [ctaRead i, ctaAct i]
+
+/-- one engine call of thread `i` under the chain lock: `true` = MineBlock, `false` = InsertBlock(B) -/
+def ctaSec (i : Nat) (mine : Bool) : Sec CS := if mine then ⟨true, ctaMineSteps i⟩ else ⟨true, [ctaInsert]⟩
+
+/-- `MineBlock` with the read BEFORE the lock (the seeded variant): an unlocked read, then the locked rest -/
+def ctaMineOutside (i : Nat) : List (Sec CS) := [⟨false, [ctaRead i]⟩, ⟨true, [ctaAct i]⟩]
+
+/-- (parents of the mined blocks, failed MineBlock calls, final head) -/
+def ctaOutcome (s : CS) : List Nat × Nat × Nat := (s.mined, s.mineErr, s.head)
+
+/-- one MineBlock (thread 0; its two steps merged freely = the read is not protected) against one InsertBlock(B) -/
+def ctaOutcomeUnlocked (m : List Bool) : List Nat × Nat × Nat :=
+  ctaOutcome (runMerge2 (ctaMineSteps 0) [ctaInsert] m {})
+
 end LemoModel.Signer
